@@ -90,7 +90,9 @@ Checks(e) ==
         \* inside the domain every call returns a value
         [NoException |-> e[2] \in {"fp", "np", "fix"} /\ ~Finite(DblOf(e[3]), Fmt.f)]
     [] e[1] = "ok" ->
-        [Complete |-> st.cnt = Tr.n]
+        [Complete |-> st.cnt = Tr.n,
+         \* the deprecated functions exist for every format with n_frac (+ sign bit) <= n_bits
+         DeprecatedVariantAvailable |-> (Fmt.f + Tr.fmt[1] <= Fmt.n) => Tr.fix = 1]
     [] OTHER -> [UnknownEvent |-> FALSE]
 
 Apply(e) ==
